@@ -241,10 +241,7 @@ func traverseArrayWithIndices(context Context, node *CandidateNode, indices []*C
 	return newMatches, nil
 }
 
-func keyMatches(key *CandidateNode, wantedKey string, prefs traversePreferences) bool {
-	if prefs.ExactKeyMatch {
-		return key.Value == wantedKey
-	}
+func keyMatches(key *CandidateNode, wantedKey string) bool {
 	return matchKey(key.Value, wantedKey)
 }
 
@@ -315,7 +312,7 @@ func doTraverseMergedMap(newMatches *orderedmap.OrderedMap, node *CandidateNode,
 			if err != nil {
 				return err
 			}
-		} else if splat || keyMatches(key, wantedKey, prefs) {
+		} else if splat || (prefs.ExactKeyMatch && key.Value == wantedKey) || (!prefs.ExactKeyMatch && keyMatches(key, wantedKey)) {
 			log.Debug("MATCHED")
 			if prefs.IncludeMapKeys {
 				log.Debug("including key")
